@@ -85,12 +85,12 @@ MUTANTS = [
     ("Imports.Less-S1 by Name", "S", ["Imports.Less"], "parse/parse.go", "return s[i].UniqueName < s[j].UniqueName", "return s[i].Name < s[j].Name", "differs"),
     ("Imports.Less-S2 swapped indices", "S", ["Imports.Less"], "parse/parse.go", "return s[i].UniqueName < s[j].UniqueName", "return s[j].UniqueName < s[i].UniqueName", "differs"),
     ("Imports.Less-H1 flipped", "H", ["Imports.Less"], "parse/parse.go", "return s[i].UniqueName < s[j].UniqueName", "return s[j].UniqueName > s[i].UniqueName", "proved"),
-    ("filter-S1 negated", "S", ["filter"], "mage/main.go", FI, FI.replace("if strings.HasPrefix", "if !strings.HasPrefix"), "differs"),
-    ("filter-S2 arguments swapped", "S", ["filter"], "mage/main.go", FI, FI.replace("HasPrefix(s, prefix)", "HasPrefix(prefix, s)"), "differs"),
-    ("filter-S3 stops... keeps only the last match", "S", ["filter"], "mage/main.go", FI, FI.replace("out = append(out, s)", "out = []string{s}"), "differs"),
+    ("filter-S1 negated", "S", ["filter"], "mage/main.go", FI, FI.replace("if strings.HasPrefix", "if !strings.HasPrefix"), "differs (advisory"),
+    ("filter-S2 arguments swapped", "S", ["filter"], "mage/main.go", FI, FI.replace("HasPrefix(s, prefix)", "HasPrefix(prefix, s)"), "differs (advisory"),
+    ("filter-S3 stops... keeps only the last match", "S", ["filter"], "mage/main.go", FI, FI.replace("out = append(out, s)", "out = []string{s}"), "differs (advisory"),
     ("filter-H1 continue form, make", "H", ["filter"], "mage/main.go", FI, "\tres := make([]string, 0, len(list))\n\tfor _, e := range list {\n\t\tif !strings.HasPrefix(e, prefix) {\n\t\t\tcontinue\n\t\t}\n\t\tres = append(res, e)\n\t}\n\treturn res\n", "proved"),
     ("filter-H2 index loop", "H", ["filter"], "mage/main.go", FI, "\tvar out []string\n\tfor i := 0; i < len(list); i++ {\n\t\tif strings.HasPrefix(list[i], prefix) {\n\t\t\tout = append(out, list[i])\n\t\t}\n\t}\n\treturn out\n", "proved"),
-    ("filter-H3 extra counter (tuple state: outside what the proof script handles; policy b)", "H", ["filter"], "mage/main.go", FI, "\tvar out []string\n\tn := 0\n\tfor _, s := range list {\n\t\tif strings.HasPrefix(s, prefix) {\n\t\t\tout = append(out, s)\n\t\t\tn++\n\t\t}\n\t}\n\tif n == 0 {\n\t\treturn nil\n\t}\n\treturn out\n", "untranslatable"),
+    ("filter-H3 extra counter, return nil when none matched (tuple state: outside what the proof script handles; policy b)", "H", ["filter"], "mage/main.go", FI, "\tvar out []string\n\tn := 0\n\tfor _, s := range list {\n\t\tif strings.HasPrefix(s, prefix) {\n\t\t\tout = append(out, s)\n\t\t\tn++\n\t\t}\n\t}\n\tif n == 0 {\n\t\treturn nil\n\t}\n\treturn out\n", "unproved-no-diff"),
     ("filter-H4 extra counter, no nil", "H", ["filter"], "mage/main.go", FI, "\tvar out []string\n\tn := 0\n\tfor _, s := range list {\n\t\tif strings.HasPrefix(s, prefix) {\n\t\t\tout = append(out, s)\n\t\t\tn++\n\t\t}\n\t}\n\tif n == 0 {\n\t\treturn out\n\t}\n\treturn out\n", "unproved-no-diff"),
     ("displayName-S1 other package name", "S", ["displayName"], "mg/deps.go", DN, DN.replace('"main"', '"mage"'), "differs"),
     ("displayName-S2 >= 2 pieces", "S", ["displayName"], "mg/deps.go", DN, DN.replace("== 2", ">= 2"), "differs"),
